@@ -291,6 +291,11 @@ theorem failure_keeps_model (c : Codec B R) (st : St B R) (call : Call B)
       rw [hx] at hb
       simp [hr] at hb
 
+/-- a crash with the backup switched off and an old backup file lying around: an exception leaves `refine` -/
+example : (refine Fix.all wc wSt ⟨some 4, false, ⟨1, .wrote 0, .good⟩⟩).exc ≠ none ∧
+    (refine Fix.all wc wSt ⟨some 4, false, ⟨1, .wrote 0, .good⟩⟩).st.fs.res = some 0 ∧
+    (refine Fix.all wc wSt ⟨some 4, false, ⟨1, .wrote 0, .good⟩⟩).st.mem.doc.acta = some ⟨5, 1⟩ := by decide
+
 /-! ### one call meets the whole specification; histories -/
 
 theorem refine_meets_spec [DecidableEq B] [DecidableEq R] (c : Codec B R) (st : St B R) (call : Call B)
@@ -360,6 +365,12 @@ theorem refine_meets_spec [DecidableEq B] [DecidableEq R] (c : Codec B R) (st : 
       cases ha : st.mem.doc.acta with
       | none => simp [hok, hsome, h1, h3 ha]
       | some a => simp [hok, hsome, h1, h2 a ha]
+
+example : inSync wSt'.mem = true ∧ plausible wc wSt'.fs.res (good 60) = true ∧
+    specStep wc wSt' ⟨some 4, true, good 60⟩ (refine Fix.all wc wSt' ⟨some 4, true, good 60⟩) = true := by decide
+
+/-- outside `inSync` the specification is not met (the open finding), so the hypothesis is needed -/
+example : specStep wc wSt ⟨some 4, true, good 60⟩ (refine Fix.all wc wSt ⟨some 4, true, good 60⟩) = false := by decide
 
 /-- the bookkeeping invariant is kept by every call -/
 theorem inSync_refine (c : Codec B R) (st : St B R) (call : Call B)
